@@ -450,7 +450,11 @@ fn eval_code_in_namespace(
     );
 
     let eval_start = Instant::now();
-    let eval_result = eval_toplevel_exprs_then_stop(&items, env, session, Rc::clone(&namespace));
+    // A panic in the interpreter is a bug in Garden, but the output
+    // printed so far and the final `done` must still reach the client.
+    let eval_result = std::panic::catch_unwind(std::panic::AssertUnwindSafe(|| {
+        eval_toplevel_exprs_then_stop(&items, env, session, Rc::clone(&namespace))
+    }));
     let eval_msec = eval_start.elapsed().as_millis() as i64;
 
     // Stop the flusher and drain whatever printed since its last pass.
@@ -458,6 +462,28 @@ fn eval_code_in_namespace(
     let _ = flusher.join();
     flush_output_buffer(stdout_buf, b"out", response_tx, base_msg);
     flush_output_buffer(stderr_buf, b"err", response_tx, base_msg);
+
+    let eval_result = match eval_result {
+        Ok(eval_result) => eval_result,
+        Err(_) => {
+            env.stack.pop_to_toplevel();
+
+            let mut err_msg = base_msg.clone();
+            err_msg.insert(
+                b"err".to_vec(),
+                bstr("Internal error: Garden crashed during this evaluation.\n"),
+            );
+            responses.push(Value::Dict(err_msg));
+
+            let mut done_msg = base_msg.clone();
+            done_msg.insert(
+                b"status".to_vec(),
+                Value::List(vec![bstr("done"), bstr("eval-error")]),
+            );
+            responses.push(Value::Dict(done_msg));
+            return responses;
+        }
+    };
 
     match eval_result {
         Ok(value) => {
